@@ -203,6 +203,20 @@ Section WithIp.
       (o2, route_to, asked1 || asked2, st2)
     else (o1, outbound, asked1, st1).
 
+  (* ---- the keys, as the code computes them ------------------------------------------------------
+     store side (DNS handler): baseKey := cacheKey(q.Name, q.Qtype); responseCacheKey = baseKey + "|" + scope;
+       updateDnsCache: dnsCacheBaseKey(responseCacheKey); rememberDnsKnowledge(that, originalDeadline)
+     lookup side (ChooseDialTarget): HasDnsKnowledge(cacheKey(domain, AddrToDnsType(dst))) *)
+  Definition store_key (qname : str) (qtype : N) (scope : str) : str :=
+    base_key (cache_key qname qtype ++ match scope with [] => [] | _ => c_pipe :: scope end).
+  Definition lookup_key (domain : str) (qtype : N) : str := cache_key domain qtype.
+
+  (* a response for (qname, qtype) with TTL seconds is cached: __updateDnsCacheDeadline bypasses a name
+     that is an IP literal (host = qname without its trailing dot); originalDeadline = now + ttl s *)
+  Definition cache_response (st : cp_state) (qname : str) (qtype : N) (scope : str) (ttl_s : Z) : cp_state :=
+    if is_ip (trim_suffix_dot qname) then st
+    else remember_dns_knowledge st (store_key qname qtype scope) (s_now st + ttl_s * 1000000000).
+
   Inductive op :=
   | OpRemember (key : str) (expires : Z)          (* a DNS answer for base key `key` entered the cache *)
   | OpAdvance (dt : Z)                            (* time passes (dt >= 0) *)
@@ -225,6 +239,19 @@ Section WithIp.
     | o :: h' =>
         let '(r, st1) := step mode st o in
         let '(rs, st2) := run mode st1 h' in (r :: rs, st2)
+    end.
+
+  (* histories in wire form: names as they arrive, keys computed by the code's own key functions *)
+  Inductive wire_op :=
+  | WResolved (qname : str) (qtype : N) (scope : str) (expires : Z)  (* rememberDnsKnowledge for a stored answer *)
+  | WAdvance (dt : Z)
+  | WChoose (outbound : N) (dst : dest) (domain : str) (has_resolvers : bool) (ans : probe_answer).
+
+  Definition op_of_wire (w : wire_op) : op :=
+    match w with
+    | WResolved qn qt sc e => OpRemember (store_key qn qt sc) e
+    | WAdvance dt => OpAdvance dt
+    | WChoose ob dst dom hr ans => OpChoose ob dst dom (lookup_key dom qtype_a) (lookup_key dom qtype_aaaa) hr ans
     end.
 
   Definition init_state (now : Z) : cp_state := {| s_now := now; s_dns := []; s_real := []; s_neg := [] |}.
